@@ -97,14 +97,15 @@ theorem C02_numwant (provided : Bool) (nw mx df : Nat) :
 /-- When the selection is empty (unknown swarm, numwant 0, or nobody else to offer) the response
 contains just the announcer itself; otherwise exactly the selection — in the list of the
 announcer's address family, the other list untouched. -/
-theorem C02_response_peers {σ : Type} (ops : StoreOps σ) (st : σ) (ctx : Ctx) (req : AnnReq) (resp : AnnResp) (h : ctx.skipResponse = false) :
+theorem C02_response_peers {σ : Type} (ops : StoreOps σ) (st : σ) (ctx : Ctx) (req : AnnReq) (resp : AnnResp) (h : ctx.skipResponse = false)
+    (hup : ops.down st = false) :
     ∃ ctx' resp', responseAnnounce ops st ctx req resp = .ok (ctx', resp') ∧ ctx' = ctx ∧
       let sel := (ops.announcePeers st req.infoHash (req.left = 0) req.numWant req.peer).getD []
       let peers := if sel.isEmpty then [req.peer] else sel
       (req.peer.fam = .v4 → resp'.v4peers = peers ∧ resp'.v6peers = resp.v6peers) ∧
       (req.peer.fam = .v6 → resp'.v6peers = peers ∧ resp'.v4peers = resp.v4peers) := by
   unfold responseAnnounce
-  simp only [h, Bool.false_eq_true, if_false]
+  simp only [h, hup, Bool.false_eq_true, if_false]
   refine ⟨_, _, rfl, rfl, ?_⟩
   constructor
   · intro hf; rw [hf]; simp only; split <;> simp
